@@ -114,11 +114,16 @@ def c03_lifecycle(tr, out, snaps_by_market, exec_class="Simulated"):
     for e in tr.status:
         per[e["o"]].append(e)
     sent = set()
+    sent_seq = {}
     for p in tr.packages:
         if p["kind"] == "PLACE":
             sent.update(p["orders"])
+            for o_ in p["orders"]:
+                sent_seq[o_] = min(sent_seq.get(o_, p["seq"]), p["seq"])
     for e in tr.effects:
         sent.update(e["orders"])
+        for o_ in e["orders"]:
+            sent_seq[o_] = min(sent_seq.get(o_, e["seq"]), e["seq"])
     for o, evs in per.items():
         done = False
         path = []
@@ -128,11 +133,14 @@ def c03_lifecycle(tr, out, snaps_by_market, exec_class="Simulated"):
             out.rule("transition")
             if tr_ in SELF_LOOPS:
                 continue
-            if tr_ not in ALLOWED:
+            was_sent = sent_seq.get(o, float("inf")) < e["seq"]
+            # an order that the controls refused (never sent) may be offered again: VIOLATION -> PENDING
+            reoffer = tr_ == ("VIOLATION", "PENDING") and not was_sent
+            if tr_ not in ALLOWED and not reoffer:
                 out.v("illegal-transition", {"prev": e["prev"], "new": e["new"], "caller": e["caller"], "exec": exec_class}, order=o, events=evs)
-            if done and e["new"] in LIVE and o in sent:
+            if done and e["new"] in LIVE and was_sent:
                 out.v("live-after-complete", {"new": e["new"], "caller": e["caller"], "exec": exec_class}, order=o, events=evs)
-            if e["new"] in DONE and e["prev"] is not None:
+            if e["new"] in DONE and e["prev"] is not None and (was_sent or e["new"] != "VIOLATION"):
                 done = True
         out.d("path:" + ">".join(x[:4] for x in path))
         # status_log at the end equals the hooked sequence
@@ -996,16 +1004,27 @@ TOL_EXPOSURE = 0.011
 
 def c01_decisions(tr, out, case):
     limits = {s["name"]: s.get("limits", {}) for s in case.get("strategies", [])}
-    packaged = set()
-    for p in tr.packages:
-        if p["kind"] == "PLACE":
-            packaged.update(p["orders"])
+    place_pkgs = [p for p in tr.packages if p["kind"] == "PLACE"]
+    place_reqs = collections.defaultdict(list)
+    for r in tr.requests:
+        if r["kind"] == "PLACE":
+            place_reqs[r["o"]].append(r["seq"])
+
+    def packaged_after(r):
+        # sent because of THIS offer: a package holding the order created before the order is offered again
+        nxt = min((q for q in place_reqs[r["o"]] if q > r["seq"]), default=float("inf"))
+        return any(r["o"] in p["orders"] and r["seq"] < p["seq"] < nxt for p in place_pkgs)
+
     for r in tr.requests:
         if r["kind"] not in ("PLACE", "REPLACE") or r.get("position") is None or r["force"]:
             continue
         if r["kind"] == "PLACE" and not r["execute"]:
             continue
-        lim = limits.get(r["strategy"], {})
+        lim = dict(limits.get(r["strategy"], {}))
+        if r.get("limits_after") is not None:
+            # the limits in force are the strategy's own attributes when the decision was taken (a validate_order hook may have loaded
+            # the budget of the order's runner)
+            lim = {"order": r["limits_after"][0], "selection": r["limits_after"][1], "market": r["limits_after"][2]}
         cand = dict(r["candidate"])
         position = [dict(v) for v in r["position"]]
         if r["kind"] == "REPLACE":
@@ -1050,8 +1069,8 @@ def c01_decisions(tr, out, case):
         elif r["kind"] == "PLACE" and r.get("result") is False:
             out.rule("refused")
             a = r["after"]
-            if a["status"] != "VIOLATION" or a["in_blotter"] or r["o"] in packaged:
-                out.v("refused-order-not-marked-or-sent", tags, request=_rq(r), after=a, packaged=r["o"] in packaged)
+            if a["status"] != "VIOLATION" or a["in_blotter"] or packaged_after(r):
+                out.v("refused-order-not-marked-or-sent", tags, request=_rq(r), after=a, packaged=packaged_after(r))
     # refused orders never reach a package
     for p in tr.packages:
         for o in p["orders"]:
